@@ -87,7 +87,9 @@ def in_child(fn):
             try:
                 res = {"ok": fn()}
             except BaseException as e:  # noqa
-                res = {"error": "%s: %s" % (type(e).__name__, e)}
+                import traceback
+                tb = traceback.extract_tb(e.__traceback__)[-4:]
+                res = {"error": "%s: %s [%s]" % (type(e).__name__, e, " <- ".join("%s:%d %s" % (os.path.basename(f.filename), f.lineno, f.name) for f in reversed(tb)))}
             data = json.dumps(res).encode()
             with os.fdopen(w, "wb") as fh:
                 fh.write(data)
